@@ -77,7 +77,8 @@ def cargo_build(variant, want_json=False, nightly=False):
     if want_json:
         cmd += ["--message-format=json"]
     # rlibs are only usable by the rustc that produced them: nightly builds get their own target dir
-    tdir = os.path.join(TARGET, "hn" if nightly else "h")
+    # the feature variants get their own target dir too: same profile = same binary path otherwise
+    tdir = os.path.join(TARGET, "hn" if nightly else ("hd" if dbgfeat else "h"))
     rc, out, err = sh(cmd, env={"CARGO_TARGET_DIR": tdir}, timeout=1800)
     if rc != 0:
         raise Inconclusive("harness variant %s does not build against the current tree: %s" % (variant, (err or out)[-1500:].replace("\n", " | ")))
